@@ -4,6 +4,7 @@ import (
 	cryptorand "crypto/rand"
 	"fmt"
 	"strings"
+	"sync"
 	"time"
 
 	"hop.computer/hop/certs"
@@ -254,12 +255,55 @@ func scCounterfeit(r *Run) {
 		}
 		cep := n.Listen("client", Addr(2, 4000), Addr(1, 77))
 		c := transport.NewClient(cep, Addr(1, 77), ccfg)
+		// other goroutines of the application ask for the handshake's outcome too, at any time; the one that
+		// runs the handshake may be descheduled for a while inside a socket call (a stalled thread)
+		var lateMu sync.Mutex
+		lateNil := 0
+		nLate := 0
+		if r.Intn("late", 2) == 0 {
+			nLate = 1 + r.Intn("late", 4)
+			if r.Intn("late", 2) == 0 {
+				cep.DeadlineStall = func() time.Duration {
+					if r.Intn("dlstall", 2) == 0 {
+						return 0
+					}
+					r.CountFault("deadline-call-stall", 1)
+					return time.Duration(1+r.Intn("dlstall", 400)) * time.Millisecond
+				}
+			}
+		}
+		var lateWG sync.WaitGroup
+		for i := 0; i < nLate; i++ {
+			at := time.Duration(r.Intn("late", 4000)) * time.Millisecond
+			if r.Intn("late", 2) == 0 { // around the time the server's last message arrives
+				at = time.Duration(r.Intn("late", 8)) * n.Cfg.Latency
+			}
+			lateWG.Add(1)
+			r.Go(func() {
+				defer lateWG.Done()
+				time.Sleep(at)
+				var e error
+				if WithTimeout(r, 30*time.Second, func() { e = c.Handshake() }) && e == nil {
+					lateMu.Lock()
+					lateNil++
+					lateMu.Unlock()
+				}
+			})
+		}
 		var herr error
 		returned := WithTimeout(r, 30*time.Second, func() { herr = c.Handshake() })
 		if !returned {
 			c.Close()
 			herr = fmt.Errorf("no return")
 		}
+		WithTimeout(r, 40*time.Second, func() { lateWG.Wait() })
+		lateMu.Lock()
+		if lateNil > 0 && herr != nil {
+			// a concurrent caller was told "success" for the handshake that failed
+			r.Logf("handshake failed with %v, but %d concurrent Handshake() call(s) returned nil", herr, lateNil)
+			herr = nil
+		}
+		lateMu.Unlock()
 		authentic := id.possession && kind != fkWrongKEM
 		switch policy {
 		case 0:
